@@ -91,6 +91,31 @@ def check_orientation(run, A):
     run.floor('score metrics checked', n, 2)
 
 
+def check_cos_scale_free(run, A):
+    """R-NORM: the 'cos' score compares directions.  With both arguments RAW (carrying the taint of their own scale), the score returned by
+    _ScoreMatrix.cos must be free of that taint, i.e. both are divided by their exact norm (`x / max(||x||, tiny)`: the floor only guards
+    0 / 0).  A floor inside the supported dynamic range (machine eps, 1e-10, ...) leaves faint rows un-normalised: their scores are
+    rounded away against the score of an active row and the 'optimal' search ties towards the identity - the reference is not restored."""
+    from .c04 import raw_param, scale_taint
+    q = P + '_ScoreMatrix.cos'
+    fn = A.prog.func(q)
+    ev = A.fresh_evaluator()
+    over = {}
+    for p_ in ('mask', 'reference_mask'):
+        if p_ not in fn.params:
+            raise AnalysisError(f'{q}: parameter {p_} vanished')
+        over[p_] = raw_param(ev, fn, p_)
+    ctx = ev.entry(fn, overrides=over)
+    if ctx.result is None:
+        raise AnalysisError(f'{q}: no result')
+    if not all(('param', p_) in ctx.result.deps for p_ in over):
+        raise AnalysisError(f'{q}: the dependence of the score on its arguments is not resolved')
+    leaks = scale_taint(ctx.result)
+    run.check(not leaks, 'R-NORM', "_ScoreMatrix.cos: the score is free of the scale of either argument's rows", fn.loc(), 'both arguments are exactly normalised along time',
+              f'the cos score still depends on the magnitude of {sorted(str(x[1]) for x in leaks)}: the rows are not divided by their exact norm (a floor above finfo.tiny is not a normaliser)',
+              construct=f'R-NORM::{q}::scale-free')
+
+
 def check(run):
     A = run.A
     run.explanation = (
@@ -103,3 +128,4 @@ def check(run):
     c14.check_greedy(run, A)
     c14.check_apply_mapping(run, A)
     check_orientation(run, A)
+    check_cos_scale_free(run, A)
